@@ -111,6 +111,7 @@ static size_t vf_input_fn(void * state, soxr_in_t * data, size_t requested)
   if (fn_ended) ++fn_calls_after_end;
   if (fn_failed) ++fn_calls_after_fail;
   if (requested > fn_max_request) fn_max_request = requested;
+  VF_ASSERT(requested >= 1, "the input function is never asked for 0 frames: its 0 reply would be taken for end-of-input (C05/C18)");
   if (k >= VF_FNCALLS || in_fn_kind[k] == 1) { fn_failed = 1; *data = 0; return 0; }
   if (in_fn_kind[k] == 2) { fn_ended = 1; return 0; }      /* data left as set by the library (non-null) */
   n = in_fn_ret[k];
